@@ -143,6 +143,7 @@ vh::Outcome run_trigger(const vh::Case& c) {
         }
     };
     for (int k : ctl) apply(fin, k);
+    bool second_triggerer = c.cfg.size() > 1 && c.cfg[1] % 3 == 1 && c.fibers.size() > 1 && !c.fibers[1].empty();
     bool untimed_wait_ok = !fin.A || fin.T;
     bool untimed_wact_ok = fin.A;
 
@@ -153,7 +154,9 @@ vh::Outcome run_trigger(const vh::Case& c) {
     std::vector<long> trig_ret(ctl.size(), -1);      // step at which the i-th controller op (a successful trigger) returned
     long last_act_call = init_active ? 0 : -1;       // call step of the latest activate() that the model says succeeds
     long last_tr_call = -1;                          // call step of the latest trigger()/reset()
-    bool lbl_probe = false;
+    bool lbl_probe = false, lbl_second = false;
+    int tr_in_flight = 0; long last_tr_ret = -1;     // trigger()/reset() calls of any thread: in flight now / latest return step
+    int sec_in_flight = 0; long sec_last_ret = -1;   // second triggerer: the model's T bit is exact only if none of its calls can have landed after the last activation
     out.res = vrt::run(c.sched, [&] {
         gc::TriggerVariable tv(init_active);
         std::vector<std::unique_ptr<Tracked>> datum;
@@ -168,19 +171,39 @@ vh::Outcome run_trigger(const vh::Case& c) {
                 if (k == K_ACTIVATE) { n_activate_called++; if (!cur.A) last_act_call = vrt::now_step(); } else { if (k == K_TRIGGER) n_trigger_called++; else n_reset_called++; last_tr_call = vrt::now_step(); }
                 bool exp = apply(cur, k);       // model is updated at call time; waiters abstain while a call is in flight
                 bool got = true;
+                if (k != K_ACTIVATE) tr_in_flight++;
                 if (k == K_ACTIVATE) got = tv.activate(); else if (k == K_TRIGGER) got = tv.trigger(); else tv.reset();
+                if (k != K_ACTIVATE) { tr_in_flight--; last_tr_ret = vrt::now_step(); }
                 ctl_in_flight = false;
                 if (k == K_TRIGGER && exp) trig_ret[i] = vrt::now_step();
                 if (k != K_RESET && got != exp) vrt::fail("controller-result", std::string(k == K_ACTIVATE ? "activate" : "trigger") + "() returned " + (got ? "true" : "false") + ", model says " + (exp ? "true" : "false"));
                 if (tv.isActive() != cur.A) vrt::fail("controller-state", "isActive() disagrees with the model after a controller call");
                 // after reset() the property only promises "inactive" (and that blocked waiters were released): the value of
                 // isTriggered() is asserted only while it is determined by activate()/trigger()
-                if (k == K_RESET) t_known = false; else if (k == K_ACTIVATE && exp) t_known = true;
+                if (k == K_RESET || second_triggerer) t_known = false; else if (k == K_ACTIVATE && exp) t_known = true;
                 if (t_known && tv.isTriggered() != cur.T) vrt::fail("controller-state", "isTriggered() disagrees with the model after a controller call");
             }
         });
+        if (second_triggerer) {
+            // a second thread that only calls trigger(): results are judged with interval reasoning (the model alone is no longer exact for T)
+            lbl_second = true;
+            vrt::spawn([&] {
+                for (auto& op : c.fibers[1]) {
+                    for (int s = 0; s < op.b % 3; ++s) vrt::step();
+                    bool a_at_call = cur.A, stable = !ctl_in_flight;
+                    long a0 = n_activate_called, r0 = n_reset_called;
+                    n_trigger_called++; last_tr_call = vrt::now_step();
+                    sec_in_flight++; tr_in_flight++;
+                    bool got = tv.trigger();
+                    sec_in_flight--; tr_in_flight--; sec_last_ret = vrt::now_step(); last_tr_ret = vrt::now_step();
+                    if (got && !init_active && n_activate_called == 0) vrt::fail("trigger-result", "trigger() returned true although activate() was never called");
+                    if (!got && stable && a_at_call && n_activate_called == a0 && n_reset_called == r0)
+                        vrt::fail("trigger-result", "trigger() returned false although the variable was active during the whole call");
+                }
+            });
+        }
         for (size_t i = 1; i < c.fibers.size(); ++i) {
-            if (c.fibers[i].empty()) continue;
+            if (c.fibers[i].empty() || (second_triggerer && i == 1)) continue;
             vrt::spawn([&, i] {
                 for (auto& op : c.fibers[i]) {
                     for (int s = 0; s < op.b % 3; ++s) vrt::step();
@@ -188,6 +211,7 @@ vh::Outcome run_trigger(const vh::Case& c) {
                     if (kind == 0 && !untimed_wait_ok) kind = 1;
                     if (kind == 2 && !untimed_wact_ok) kind = 3;
                     TvModel s0 = cur; bool stable = !ctl_in_flight;
+                    bool t_exact = !second_triggerer || (sec_in_flight == 0 && sec_last_ret < last_act_call);
                     long a0 = n_activate_called, t0 = n_trigger_called, r0 = n_reset_called;
                     long b0 = vrt::me().blocking_ops;
                     long wait_call = vrt::now_step();
@@ -197,14 +221,14 @@ vh::Outcome run_trigger(const vh::Case& c) {
                     if ((kind == 0 || kind == 1) && (op.a & 1 || true) && (op.b & 1)) { if (tv.isActive()) { probed_active = true; act_seen = last_act_call; lbl_probe = true; } }
                     if (kind == 0 || kind == 1) {
                         bool r = kind == 0 ? tv.wait() : tv.wait_for(std::chrono::milliseconds(20));
-                        if (r && probed_active && act_seen >= 0 && last_tr_call < act_seen)
-                            vrt::fail("wait-early", "wait returned true although the waiter had seen the variable active and no trigger()/reset() was called after that activation began");
+                        if (r && probed_active && act_seen >= 0 && tr_in_flight == 0 && last_tr_ret < act_seen)
+                            vrt::fail("wait-early", "wait returned true although the waiter had seen the variable active and every trigger()/reset() call had returned before that activation began");
                         if (r) for (size_t ti = 0; ti < trig_ret.size(); ++ti) if (trig_ret[ti] >= 0 && trig_ret[ti] < wait_call && datum[ti]->read() != uint64_t(55))
                             vrt::fail("publication", "data written before trigger() is not visible to a wait() that began after the trigger returned");
                         bool blocked = vrt::me().blocking_ops != b0;
                         if (blocked) lbl_blocked_wait = true;
                         if (r) {
-                            if (stable && s0.A && !s0.T && n_trigger_called == t0 && n_reset_called == r0)
+                            if (stable && t_exact && s0.A && !s0.T && n_trigger_called == t0 && n_reset_called == r0)
                                 vrt::fail("wait-early", "wait returned true on an activated, untriggered variable although no trigger()/reset() was called since");
                             if (blocked) lbl_wait_released = true;
                         } else {
@@ -232,12 +256,13 @@ vh::Outcome run_trigger(const vh::Case& c) {
             });
         }
         vrt::join_all();
-        if (tv.isActive() != fin.A || (t_known && tv.isTriggered() != fin.T)) vrt::fail("final-state", "final state differs from the two-bit model");
+        if (tv.isActive() != fin.A || (t_known && !second_triggerer && tv.isTriggered() != fin.T)) vrt::fail("final-state", "final state differs from the two-bit model");
     });
     if (lbl_blocked_wait) out.labels.push_back("waiter-blocked");
     if (lbl_wait_released) out.labels.push_back("blocked-waiter-released");
     if (lbl_timeout) out.labels.push_back("timed-out");
     if (lbl_probe) out.labels.push_back("probed-active-before-wait");
+    if (lbl_second) out.labels.push_back("second-triggerer");
     if (out.res.spurious_wakes) out.labels.push_back("spurious-wake");
     out.nontrivial = lbl_blocked_wait && !ctl.empty();
     return out;
@@ -245,7 +270,7 @@ vh::Outcome run_trigger(const vh::Case& c) {
 
 vh::GenSpec bspec(bool th) { vh::GenSpec g; g.nfibers = 5; g.max_ops = 4; g.ncodes = 1; g.amax = 8; g.bmax = 4; g.cfg_max = {4, 4}; g.sched_len = th ? 224 : 160; g.aux_len = 32; g.aux_density = 20; return g; }
 vh::GenSpec lspec(bool th) { vh::GenSpec g; g.nfibers = 4; g.max_ops = th ? 5 : 3; g.ncodes = 3; g.amax = 1; g.bmax = 3; g.cfg_max = {4, 2}; g.sched_len = th ? 160 : 112; g.aux_len = 32; g.aux_density = 20; return g; }
-vh::GenSpec tspec(bool th) { vh::GenSpec g; g.nfibers = 4; g.max_ops = th ? 6 : 5; g.ncodes = 12; g.amax = 1; g.bmax = 3; g.cfg_max = {3}; g.sched_len = th ? 192 : 144; g.aux_len = 40; g.aux_density = 25; return g; }
+vh::GenSpec tspec(bool th) { vh::GenSpec g; g.nfibers = 4; g.max_ops = th ? 6 : 5; g.ncodes = 12; g.amax = 1; g.bmax = 3; g.cfg_max = {3, 3}; g.sched_len = th ? 192 : 144; g.aux_len = 40; g.aux_density = 25; return g; }
 
 vh::Register rb("C09", bspec(false), bspec(true), run_barrier,
                 "N in 2..5 participants x G in 1..4 generations with generated drop generations, pauses, schedules and spurious wake-ups; non-trivial = a participant entered generation g+1 "
